@@ -113,9 +113,10 @@ def TU.flush (t : TU) : List (Nat × Nat × Nat) × List (Nat × Nat) :=
   if 1 < t.len then (t.ranges ++ [(t.sc, t.sc + t.len - 1, t.su)], t.chars)
   else (t.ranges, t.chars ++ [(t.sc, t.su)])
 
-/-- one iteration for subset code `c` with packed unicode `v` -/
+/-- one iteration for subset code `c` with packed unicode `v`; a run is only extended while the low byte
+of the destination does not wrap (`unicode&0xFF != 0`, /repo 857c1d0) -/
 def tuStep (t : TU) (c v : Nat) : TU :=
-  if c = t.sc + t.len ∧ v = t.su + t.len then { t with len := t.len + 1 }
+  if c = t.sc + t.len ∧ v = t.su + t.len ∧ v % 256 ≠ 0 then { t with len := t.len + 1 }
   else ⟨c, v, 1, t.flush.1, t.flush.2⟩
 
 def tuLoop : TU → Nat → List Nat → TU
@@ -173,11 +174,6 @@ def tuLookup (R : List (Nat × Nat × Nat)) (C : List (Nat × Nat)) (code : Nat)
 
 def decodeTU (R : List (Nat × Nat × Nat)) (C : List (Nat × Nat)) (n : Nat) : List (Option Nat) :=
   (List.range n).map (fun k => tuLookup R C (k + 1))
-
-/-- no run of consecutive packed values steps over a low-byte boundary `..FF → ..00` -/
-def noCross : Nat → List Nat → Bool
-  | _, [] => true
-  | a, b :: r => (b != a + 1 || a % 256 != 255) && noCross b r
 
 def validScalar (u : Nat) : Bool := decide (u ≤ 0x10FFFF ∧ ¬ (0xD800 ≤ u ∧ u ≤ 0xDFFF))
 
